@@ -70,7 +70,19 @@ func verifSrcObject(k int) Native {
 	case 4:
 		return verifSrcRef(k)
 	default:
-		return NewStream(Dict{"L": verifLeaf(k)}, []byte("data"))
+		// streams: a plain entry, or filter parameters (single and array
+		// form) that hold a reference of their own
+		switch verifrt.Choice("stmdict", 3) {
+		case 0:
+			return NewStream(Dict{"L": verifLeaf(k)}, []byte("data"))
+		case 1:
+			return NewStream(Dict{"Filter": Name("ASCIIHexDecode"), "DecodeParms": Dict{"G": verifSrcRef(k)}}, []byte("64617461>"))
+		default:
+			return NewStream(Dict{
+				"Filter":      Array{Name("ASCIIHexDecode"), Name("ASCIIHexDecode")},
+				"DecodeParms": Array{nil, Dict{"G": verifSrcRef(k)}},
+			}, []byte("363436313734363e>"))
+		}
 	}
 }
 
@@ -164,6 +176,11 @@ func (v *verifIso) same(a, b Object) {
 	case String:
 		y, ok := b.(String)
 		if !ok || !bytes.Equal(x, y) {
+			v.fail()
+		}
+	case Name:
+		y, ok := b.(Name)
+		if !ok || x != y {
 			v.fail()
 		}
 	case Array:
